@@ -622,6 +622,9 @@ func c14LRU(c *Ctx) {
 func c14Plans(c *Ctx) {
 	c.Cases("plans", c.N(600, 20000), func(i int, r *rand.Rand) {
 		capacity := 1 + r.IntN(6)
+		if i%5 == 4 { // larger tables
+			capacity = pick(r, []int{16, 17, 32, 40})
+		}
 		b0, b1 := int64(1+r.IntN(2)), int64(1+r.IntN(3))
 		plans := [][]rateSpec{
 			{{10 * time.Minute, 1, b0}},
@@ -651,6 +654,9 @@ func c14Plans(c *Ctx) {
 		var script []string
 		evictions, shrinks := 0, 0
 		nops := 30 + r.IntN(60)
+		if capacity >= 16 {
+			nops = 3*capacity + r.IntN(40)
+		}
 		for q := 0; q < nops; q++ {
 			advance(time.Second + time.Duration(r.IntN(900))*time.Millisecond)
 			src, plan := r.IntN(nsrc), r.IntN(2)
